@@ -272,8 +272,9 @@ theorem parse_locations_irrelevant (cfg : Cfg) {ts ts' : List Token} (h : noLocs
     identifier, keyword or number no alphanumeric rune (nor `.` after a number); after `?` no `.`; after `?.` no
     `?`/`.`; after `.` no `.`/digit; after `<`, `>`, `!`, `*` none of `& | = *`; after `not` not blanks-`in`-blank;
     after `not in` a blank or the end).  Then `lex` yields the printed tokens up to locations and `parse` yields
-    `t` up to locations.  Hypothesis `hprint`: every printed token has a proved spelling (`Printable`: all but
-    float literals and identifiers that collide with keywords). -/
+    `t` up to locations.  Hypothesis `hprint`: every printed token has a proved spelling (`Printable`: every operator, bracket and
+    string; numbers whose text is digits, optional fraction, optional exponent; identifiers that do not collide with
+    keywords — a printed member name such as `a.in` is an Identifier token that the lexer would read as an operator). -/
 theorem whitespace_invariance {cfg : Cfg} {sh : NumShow} (hs : Setting cfg sh) (t : Node) (hc : canon cfg 0 t = true)
     (pc : ParenChoice) (cc : Lex.CharClass) (hcc : cc.AsciiExact) (gaps : List (List Char)) (trail : List Char)
     (hlen : (pr cfg sh pc [] 0 (eofAt {}) t).length = gaps.length)
@@ -311,13 +312,13 @@ theorem whitespace_invariance_rule {cfg : Cfg} {sh : NumShow} (hs : Setting cfg 
       parse cfg toks = .ok t' ∧ t'.eraseLoc = t.eraseLoc :=
   whitespace_invariance hs t hc pc cc hcc gaps trail hlen hprint (layout_rule cc hcc hsw _ gaps trail hlen hprint hsep)
 
-/-- What is left of the text-level statement: float literals.  Their spelling is a parameter of the printer
-    (`showFloat`), so `Printable` excludes them; what is needed is that a well-formed decimal/exponent spelling
-    (C12's `FloatParts`, lexed there alone in the source: `float_lexes`) is read back whatever follows it that is
-    not alphanumeric and not `.` — the analogue of `Lex.spells_decimal`. -/
-def float_spelling_goal : Prop :=
-  ∀ (cc : Lex.CharClass), cc.AsciiExact → ∀ (p : Lex.FloatParts), p.WF →
-    Lex.Spells cc .number (String.ofList p.text) p.text (Lex.IntFollow cc)
+/-- **Number spellings**: digits (with `_` separators), an optional fraction and an optional exponent with at
+    least one digit — decimal integers and every decimal/exponent float spelling — are read back by the lexer
+    whatever follows them that is neither alphanumeric nor `.`.  This makes float tokens `Printable` whenever
+    the printer's `showFloat` produces such a spelling (as strconv.FormatFloat does for finite values, cf. C12). -/
+theorem float_spelling (cc : Lex.CharClass) (hcc : cc.AsciiExact) (p : Lex.FloatParts) (hp : p.WF)
+    (hx : p.ExpDigits) : Lex.Spells cc .number (String.ofList p.text) p.text (Lex.IntFollow cc) :=
+  Lex.spells_float hcc p hp hx
 
 /-! ### Non-vacuity and the witness of the one deviation found -/
 
